@@ -1,7 +1,376 @@
-//! C14 — not built yet.
-use vcore::Ctx;
+//! C14 — reported source positions are exact 1-based line/column numbers (LF, CRLF and lone CR each end a line;
+//! columns count Unicode scalar values). Oracle: the printer's own position table.
+use crate::agconv;
+use crate::c13::{gen_printed_exec, Excl};
+use async_graphql::{EmptyMutation, EmptySubscription, Object, Schema};
+use async_graphql_parser::parse_query;
+use vcore::{Case, Ctx, Src};
+use vgql::ast::*;
+use vgql::print::{Printer, Style};
 
-pub fn run(_ctx: &mut Ctx) {
-    eprintln!("C14: check not built yet");
-    std::process::exit(2);
+/// byte offset of a (line, col) under the specification's line-terminator rule
+fn offset_of(text: &str, pos: Pos) -> Option<usize> {
+    let (mut line, mut col) = (1u32, 1u32);
+    let mut prev_cr = false;
+    for (i, c) in text.char_indices() {
+        if c == '\n' && prev_cr {
+            prev_cr = false;
+            continue; // second half of CRLF belongs to the terminator; no token starts here
+        }
+        if line == pos.line && col == pos.col {
+            return Some(i);
+        }
+        match c {
+            '\r' => {
+                line += 1;
+                col = 1;
+                prev_cr = true;
+            }
+            '\n' => {
+                line += 1;
+                col = 1;
+                prev_cr = false;
+            }
+            _ => {
+                col += 1;
+                prev_cr = false;
+            }
+        }
+    }
+    if line == pos.line && col == pos.col {
+        return Some(text.len());
+    }
+    None
+}
+
+/// what precedes the checked position: classes for the non-triviality rule
+fn context_classes(text: &str, upto: usize) -> (bool, bool, bool) {
+    let pre = &text[..upto];
+    let bytes = pre.as_bytes();
+    let mut lone_cr = false;
+    let mut crlf = false;
+    for i in 0..bytes.len() {
+        if bytes[i] == b'\r' {
+            if i + 1 < bytes.len() && bytes[i + 1] == b'\n' {
+                crlf = true;
+            } else if i + 1 < text.len() && text.as_bytes()[i + 1] == b'\n' {
+                crlf = true;
+            } else {
+                lone_cr = true;
+            }
+        }
+    }
+    (lone_cr, crlf, !pre.is_ascii())
+}
+
+struct Obj;
+#[Object]
+impl Obj {
+    async fn ok(&self) -> i32 {
+        1
+    }
+    // the idiom that captures the error at the (nullable) field itself
+    async fn fail(&self) -> Option<async_graphql::Result<i32>> {
+        Some(Err("boom".into()))
+    }
+    async fn obj(&self) -> Option<Obj> {
+        Some(Obj)
+    }
+    async fn list(&self) -> Vec<Obj> {
+        vec![Obj, Obj]
+    }
+    async fn arg(&self, x: Option<i32>) -> Option<i32> {
+        x
+    }
+}
+struct Query;
+#[Object]
+impl Query {
+    async fn ok(&self) -> i32 {
+        1
+    }
+    // the idiom that captures the error at the (nullable) field itself
+    async fn fail(&self) -> Option<async_graphql::Result<i32>> {
+        Some(Err("boom".into()))
+    }
+    async fn obj(&self) -> Option<Obj> {
+        Some(Obj)
+    }
+    async fn list(&self) -> Vec<Obj> {
+        vec![Obj, Obj]
+    }
+    async fn arg(&self, x: Option<i32>) -> Option<i32> {
+        x
+    }
+}
+
+/// Generate a document over the mini schema. Returns the doc plus, per planted problem, (kind, path-ish label).
+/// kind: "unknown-field" (validation), "fail" (execution error at a nullable field), "bad-arg" (validation, at the
+/// argument value)
+fn gen_schema_doc(s: &mut dyn Src, plant_validation: bool) -> (Doc, Vec<(&'static str, Vec<String>)>) {
+    // returns selection set + list of planted (kind, key path)
+    fn sel(s: &mut dyn Src, depth: usize, path: &mut Vec<String>, planted: &mut Vec<(&'static str, Vec<String>)>, plant_validation: bool, used: &mut u32) -> SelSet {
+        let n = 1 + s.choose(3);
+        let mut items = vec![];
+        for _ in 0..n {
+            *used += 1;
+            let key = format!("k{}", *used);
+            let k = s.weighted(&[4, 3, 3, 2, 2]);
+            let mut f = match k {
+                0 => Field::new("ok"),
+                1 => Field::new("fail"),
+                2 if depth > 0 => Field::new("obj"),
+                3 if depth > 0 => Field::new("list"),
+                _ => Field::new("arg"),
+            };
+            f.alias = Some(Name::new(key.clone()));
+            path.push(key);
+            match f.name.s.as_str() {
+                "fail" => planted.push(("fail", path.clone())),
+                "obj" | "list" => {
+                    // execution errors below a list are reported once per item: keep planted paths without indices
+                    // and compare locations only (see check)
+                    f.sel = sel(s, depth - 1, path, planted, plant_validation, used);
+                }
+                "arg" => {
+                    if plant_validation && s.chance(1, 3) {
+                        f.args.push((Name::new("x"), PVal::new(Val::Str("notint".into()))));
+                        planted.push(("bad-arg", path.clone()));
+                    } else if s.bool() {
+                        f.args.push((Name::new("x"), PVal::new(Val::Int("7".into()))));
+                    }
+                }
+                _ => {}
+            }
+            path.pop();
+            items.push(Selection::Field(f));
+        }
+        if plant_validation && s.chance(1, 4) {
+            *used += 1;
+            let key = format!("k{}", *used);
+            let mut f = Field::new("nope");
+            f.alias = Some(Name::new(key.clone()));
+            path.push(key);
+            planted.push(("unknown-field", path.clone()));
+            path.pop();
+            items.push(Selection::Field(f));
+        }
+        SelSet::new(items)
+    }
+    let mut planted = vec![];
+    let mut used = 0;
+    let sel = sel(s, 3, &mut vec![], &mut planted, plant_validation, &mut used);
+    let doc = Doc { defs: vec![Def::Op(OpDef { pos: Pos::default(), explicit: s.bool(), kind: OpKind::Query, name: None, vars: vec![], directives: vec![], sel })] };
+    (doc, planted)
+}
+
+fn find_field<'a>(sel: &'a SelSet, path: &[String]) -> Option<&'a Field> {
+    for it in &sel.items {
+        if let Selection::Field(f) = it {
+            if f.key() == path[0] {
+                if path.len() == 1 {
+                    return Some(f);
+                }
+                return find_field(&f.sel, &path[1..]);
+            }
+        }
+    }
+    None
+}
+
+pub fn run(ctx: &mut Ctx) {
+    ctx.rule = "documents printed with random trivia (LF/CRLF/lone CR, tabs, commas, BOMs, comments, non-ASCII) before every token; every Positioned node of the \
+                parsed tree, every validation/execution error location on a mini schema, and the syntax-error position of one illegal character inserted at a token \
+                boundary must equal the printer's (line, column) table. Non-trivial = a lone CR, a CRLF or a non-ASCII scalar precedes a checked token; distinct by text".into();
+    ctx.assume("operation and fragment NAME positions are not checked (async-graphql keeps those names as map keys without a position); nested values inside lists/objects carry no positions");
+    ctx.assume("syntax-error oracle: one `?` (never legal outside strings/comments) is inserted exactly at the start of a token; the reported start must be that position");
+    let ex = Excl::none();
+    let f1 = ctx.open("C14-F1"); // lone CR in AST/validation/execution positions
+    let f2 = ctx.open("C14-F2"); // lone CR in syntax error positions
+    let n = ctx.tier.pick(20_000, 600_000);
+    let schema = Schema::new(Query, EmptyMutation, EmptySubscription);
+
+    // --- (a) tree positions
+    let tree_case = |s: &mut dyn Src, lone_cr: bool| -> Case {
+        let mut p = {
+            let cfg = vgql::gendoc::GenCfg::default();
+            let mut doc = vgql::gendoc::gen_exec_doc(s, &cfg);
+            let mut st = crate::c13::style(s, ex);
+            st.lone_cr = lone_cr;
+            let mut pr = Printer::new(st);
+            pr.doc(&mut doc);
+            (pr.out.clone(), doc, pr.n_lone_cr, pr.n_crlf)
+        };
+        let text = std::mem::take(&mut p.0);
+        let ad = match parse_query(&text) {
+            Ok(d) => d,
+            Err(_) => return Case::discard("does-not-parse (C13's subject)"),
+        };
+        let mut gen = p.1.clone();
+        normalize_defs(&mut gen);
+        let want = positions(&gen);
+        let got = positions(&agconv::doc(&ad));
+        if want.len() != got.len() {
+            return Case::discard("tree-shape differs (C13's subject)");
+        }
+        let mut checked = 0;
+        let mut nontrivial = false;
+        for ((lw, pw), (lg, pg)) in want.iter().zip(got.iter()) {
+            if lw != lg {
+                return Case::discard("tree-shape differs (C13's subject)");
+            }
+            if (lw.starts_with("op<") || lw.starts_with("frag<")) && lw.ends_with(">.name") {
+                continue;
+            }
+            checked += 1;
+            if let Some(off) = offset_of(&text, *pw) {
+                let (a, b, c) = context_classes(&text, off);
+                nontrivial |= a || b || c;
+            }
+            if pw != pg {
+                return Case::fail(text.clone(), format!("node {}: expected {}:{} got {}:{}", lw, pw.line, pw.col, pg.line, pg.col));
+            }
+        }
+        Case::pass(text)
+            .nontrivial(nontrivial)
+            .class("tree")
+            .class_if(p.2 > 0, "tree-lone-cr")
+            .class_if(p.3 > 0, "tree-crlf")
+            .class_if(checked > 30, "tree-30+positions")
+    };
+    if f1 {
+        ctx.excluded("C14-F1");
+    }
+    ctx.stream("tree", n, 400, |s| tree_case(s, !f1));
+    if f1 {
+        // probe: the construct of the open finding
+        ctx.stream("tree-probe-lone-cr", 300, 400, |s| {
+            let c = tree_case(s, true);
+            match &c.verdict {
+                vcore::Verdict::Fail(_) if c.text.contains('\r') => Case::known(c.text.clone(), vec!["C14-F1".into()]),
+                _ => c,
+            }
+        });
+    }
+
+    // --- (b) validation and execution error locations
+    let exec_case = |s: &mut dyn Src, plant_validation: bool, lone_cr: bool| -> Case {
+        let (mut doc, planted) = gen_schema_doc(s, plant_validation);
+        let mut st = Style::fuzzy(s);
+        st.lone_cr = lone_cr;
+        let mut pr = Printer::new(st);
+        pr.doc(&mut doc);
+        let text = pr.out.clone();
+        let resp = vcore::det::block_on(schema.execute(text.as_str()));
+        let Def::Op(op) = &doc.defs[0] else { unreachable!() };
+        let has_validation = planted.iter().any(|(k, _)| *k != "fail");
+        let mut want: Vec<(u32, u32)> = vec![];
+        for (kind, path) in &planted {
+            let f = find_field(&op.sel, path).unwrap();
+            match *kind {
+                "unknown-field" => want.push((f.pos.line, f.pos.col)),
+                // "the token it refers to": the argument (its name) and its value are both defensible; the value's
+                // position is normalised to the name's when the implementation reports the name
+                "bad-arg" => {
+                    let name_pos = (f.args[0].0.pos.line, f.args[0].0.pos.col);
+                    let val_pos = (f.args[0].1.pos.line, f.args[0].1.pos.col);
+                    let reported_name = resp.errors.iter().any(|e| e.locations.iter().any(|l| (l.line as u32, l.column as u32) == name_pos));
+                    want.push(if reported_name { name_pos } else { val_pos });
+                }
+                _ => {
+                    if !has_validation {
+                        // one error per execution of the field: under a list parent it runs once per item
+                        let mult = path[..path.len() - 1]
+                            .iter()
+                            .enumerate()
+                            .map(|(i, _)| find_field(&op.sel, &path[..=i]).map_or(1, |pf| if pf.name.s == "list" { 2 } else { 1 }))
+                            .product::<usize>();
+                        for _ in 0..mult {
+                            want.push((f.pos.line, f.pos.col));
+                        }
+                    }
+                }
+            }
+        }
+        let mut got: Vec<(u32, u32)> = vec![];
+        for e in &resp.errors {
+            if e.locations.is_empty() {
+                return Case::fail(text, format!("error without location: {}", e.message));
+            }
+            for l in &e.locations {
+                got.push((l.line as u32, l.column as u32));
+            }
+        }
+        want.sort();
+        got.sort();
+        let nontrivial = text.contains('\r') || !text.is_ascii();
+        let c = if want == got {
+            Case::pass(text)
+        } else {
+            Case::fail(text, format!("error locations: expected {:?} got {:?} (errors: {:?})", want, got, resp.errors.iter().map(|e| e.message.clone()).collect::<Vec<_>>()))
+        };
+        c.nontrivial(nontrivial)
+            .class(if has_validation { "validation-errors" } else { "execution-errors" })
+            .class_if(planted.is_empty(), "no-errors")
+    };
+    ctx.stream("validation-locations", n / 4, 300, |s| exec_case(s, true, !f1));
+    ctx.stream("execution-locations", n / 4, 300, |s| exec_case(s, false, !f1));
+    if f1 {
+        ctx.stream("locations-probe-lone-cr", 200, 300, |s| {
+            let pv = s.bool();
+            let c = exec_case(s, pv, true);
+            match &c.verdict {
+                vcore::Verdict::Fail(_) if c.text.contains('\r') => Case::known(c.text.clone(), vec!["C14-F1".into()]),
+                _ => c,
+            }
+        });
+    }
+
+    // --- (c) syntax error position
+    let syntax_case = |s: &mut dyn Src, lone_cr: bool| -> Case {
+        let cfg = vgql::gendoc::GenCfg::default();
+        let mut doc = vgql::gendoc::gen_exec_doc(s, &cfg);
+        let mut st = crate::c13::style(s, ex);
+        st.lone_cr = lone_cr;
+        let mut pr = Printer::new(st);
+        pr.doc(&mut doc);
+        let text = pr.out.clone();
+        let ps = positions(&doc);
+        if ps.is_empty() {
+            return Case::discard("no positions");
+        }
+        let (label, pos) = ps[s.choose(ps.len())].clone();
+        let off = match offset_of(&text, pos) {
+            Some(o) => o,
+            None => return Case::fail(text, format!("HARNESS: position {:?} of {} not found in text", pos, label)),
+        };
+        let mut bad = text.clone();
+        bad.insert(off, '?');
+        let (a, b, c) = context_classes(&text, off);
+        match parse_query(&bad) {
+            Ok(_) => Case::fail(bad, "document with an illegal character accepted".to_string()),
+            Err(e) => {
+                let got = e.positions().next();
+                match got {
+                    Some(g) if (g.line as u32, g.column as u32) == (pos.line, pos.col) => Case::pass(bad).nontrivial(a || b || c).class("syntax"),
+                    Some(g) => Case::fail(bad, format!("syntax error reported at {}:{}, the illegal character is at {}:{} (before {})", g.line, g.column, pos.line, pos.col, label)),
+                    None => Case::fail(bad, "syntax error without position".to_string()),
+                }
+            }
+        }
+    };
+    if f2 {
+        ctx.excluded("C14-F2");
+    }
+    ctx.stream("syntax", n / 2, 400, |s| syntax_case(s, !f2));
+    if f2 {
+        ctx.stream("syntax-probe-lone-cr", 300, 400, |s| {
+            let c = syntax_case(s, true);
+            match &c.verdict {
+                vcore::Verdict::Fail(_) if c.text.contains('\r') => Case::known(c.text.clone(), vec!["C14-F2".into()]),
+                _ => c,
+            }
+        });
+    }
+    let _ = gen_printed_exec;
 }
